@@ -7,7 +7,8 @@
    form = any caps), quota function with positive values, accept_quota_equal,
    mandatory_quota, eliminate_step.  asum = all weight held (continuing + exhausted). *)
 From Coq Require Import ZArith QArith List.
-From VL Require Import Prelude.PyDict Model.GetNBest Model.Convert Model.STV Proofs.STV_proofs Proofs.STV_elim_proofs.
+From VL Require Import Prelude.PyDict Model.GetNBest Model.Convert Model.STV Proofs.STV_proofs Proofs.STV_elim_proofs
+     Proofs.STV_resting_proofs.
 Import ListNotations.
 Open Scope Q_scope.
 
@@ -91,6 +92,97 @@ Proof. exact in_play_no_pile. Qed.
 Theorem C03_targets_continuing : forall vote cand allowed, incl (ranked_next vote cand allowed) allowed.
 Proof. exact ranked_next_allowed. Qed.
 
+(* ---------------------------------------------------------------- I3: the resting place of every ballot, at every count.
+   [resting_ok a]: for every pile (k, p) of the allocation and every ballot b in it without shared ranks
+   ([plainb b = true], whatever its weight): if k = Some c then c is the highest-ranked candidate of b that is a key of
+   the allocation ([highest_continuing (keys_some a) b c]: b = pre ++ IP c :: post, no candidate of pre is a key);
+   if k = None (exhausted pile) then no candidate of b is a key ([none_continuing]).  Keys = the candidates still in the
+   count; an elected candidate that may still gain seats keeps its pile and stays a key.  No hypothesis on the
+   ballots (repeated candidates allowed), the weights, the caps or the configuration. *)
+Theorem C03_resting_initial : forall votes, resting_ok (initial_allocation votes).
+Proof. exact initial_resting. Qed.
+
+Theorem C03_resting_transfer : forall a elim, resting_ok a -> resting_ok (transfer a elim).
+Proof. exact transfer_resting. Qed.
+
+(* the keys only shrink in a transfer: what is left are keys of before outside the removed candidates *)
+Theorem C03_transfer_keys_shrink : forall a elim,
+  incl (keys_some (transfer a elim)) (filter (fun c => negb (cmem c elim)) (keys_some a)).
+Proof. exact transfer_keys_shrink. Qed.
+
+(* Gregory reweighting (surplus subtraction) keeps every ballot where it is *)
+Theorem C03_resting_subtract : forall elected a a', resting_ok a -> subtract a elected = Some a' -> resting_ok a'.
+Proof. exact subtract_resting. Qed.
+
+Theorem C03_resting_next_count : forall cf a n_seats total prev caps a' el,
+  resting_ok a -> next_count cf a n_seats total prev caps = CR_next a' el -> resting_ok a'.
+Proof. exact next_count_resting. Qed.
+
+(* at EVERY count of every run (the states of [reach], as for conservation), spelled out *)
+Theorem C03_resting_every_count :
+  forall cf votes n_seats caps prev0 a seats qs, reach cf votes n_seats caps prev0 a seats qs ->
+  forall k p b w, In (k, p) a -> In (b, w) p -> plainb b = true ->
+    match k with
+    | Some c => exists pre post, b = pre ++ IP c :: post /\ In c (keys_some a) /\
+                                 forall x, In (IP x) pre -> ~ In x (keys_some a)
+    | None => forall x, In (IP x) b -> ~ In x (keys_some a)
+    end.
+Proof.
+  intros cf votes n_seats caps prev0 a seats qs Hr k p b w Hk Hb Hp.
+  pose proof (reach_resting cf votes n_seats caps prev0 a seats qs Hr k p b w Hk Hb Hp) as H.
+  destruct k as [c|]; exact H.
+Qed.
+
+(* every count recorded in the trace of [stv] is the totals of a reachable allocation satisfying the invariant
+   (or the elect-all-remaining shortcut, which records no allocation: []) *)
+Theorem C03_resting_every_recorded_count : forall cf votes n_seats prev caps e,
+  In e (t_counts (stv cf votes n_seats prev caps)) ->
+  (exists a seats qs, reach cf votes n_seats caps prev a seats qs /\ resting_ok a /\ fst e = totals a) \/ fst e = [].
+Proof. intros cf votes n_seats prev caps e. exact (stv_recorded cf votes n_seats caps prev e). Qed.
+
+(* the invariant is decidable: the checker evaluated on the explored allocations decides exactly [resting_ok]
+   ([next_after b K] = the first rank of b with a candidate in K) *)
+Theorem C03_resting_checker : forall a, resting_okb a = true <-> resting_ok a.
+Proof. exact resting_okb_spec. Qed.
+
+(* the shared-first-rank sub-clause.  One ballot leaving for the targets T: every target receives w / |T| (cnt T c = number
+   of occurrences of c in T, 1 for the distinct members of a frozenset). *)
+Theorem C03_move_ballot_equal_split : forall f a T b w c, respects f ->
+  aweight f (move_ballot a T b w) (Some c)
+  == aweight f a (Some c) + cnt T c * (if f b then w / inject_Z (Z.of_nat (length T)) else 0).
+Proof. exact move_ballot_aweight. Qed.
+
+(* In the initial allocation the weight held for candidate c of ANY ballot b0 (ballots identified as the pile, a dict
+   keyed by the ballot, identifies them) is the sum over the cast ballots equal to b0 of: w if c is the plain first
+   rank; w / |l| per occurrence of c in a shared first rank l; nothing otherwise.  Hypothesis: a shared first rank is
+   not the empty set (an empty first rank is skipped to the next rank by model and implementation alike). *)
+Theorem C03_shared_first_rank_split : forall votes b0 c, shared_first_nonempty votes = true ->
+  aweight (ballot_eqb b0) (initial_allocation votes) (Some c)
+  == fold_right (fun bw acc => (if ballot_eqb b0 (fst bw) then first_share (fst bw) (snd bw) c else 0) + acc) 0 votes.
+Proof. intros votes b0 c. exact (initial_allocation_shares votes (ballot_eqb b0) c (respects_ballot b0)). Qed.
+
+(* the same for the whole pile of c *)
+Theorem C03_initial_pile_weight : forall votes c, shared_first_nonempty votes = true ->
+  aweight (fun _ => true) (initial_allocation votes) (Some c)
+  == fold_right (fun bw acc => first_share (fst bw) (snd bw) c + acc) 0 votes.
+Proof. intros votes c. exact (initial_allocation_shares votes (fun _ => true) c respects_all). Qed.
+
+Theorem C03_first_share_shared : forall l t w c, NoDup l ->
+  first_share (IS l :: t) w c == if cmem c l then w / inject_Z (Z.of_nat (length l)) else 0.
+Proof.
+  intros l t w c Hn. unfold first_share. rewrite (cnt_nodup l c Hn). destruct (cmem c l); ring.
+Qed.
+
+(* non-vacuity of the hypothesis and of the split: {1,2} > 3 with weight 5 gives 5/2 to 1 and to 2 *)
+Example C03_shared_first_example :
+  let votes := [([IS [1%positive; 2%positive]; IP 3%positive], 5); ([IP 3%positive; IP 1%positive], 2)] in
+  shared_first_nonempty votes = true /\
+  initial_allocation votes =
+    [(Some 1%positive, [([IS [1%positive; 2%positive]; IP 3%positive], 5 # 2)]);
+     (Some 2%positive, [([IS [1%positive; 2%positive]; IP 3%positive], 5 # 2)]);
+     (Some 3%positive, [([IP 3%positive; IP 1%positive], 2)])].
+Proof. exact shared_first_example. Qed.
+
 (* non-vacuity: a three-candidate count with an exhausted ballot *)
 Example C03_example :
   t_seats (stv (Build_cfg (Some Model.Quota.droop) true false (-1))
@@ -110,3 +202,15 @@ Print Assumptions C03_elimination_count.
 Print Assumptions C03_elimination_configured.
 Print Assumptions C03_elimination_lowest.
 Print Assumptions C03_pile_not_a_contender.
+Print Assumptions C03_resting_initial.
+Print Assumptions C03_resting_transfer.
+Print Assumptions C03_transfer_keys_shrink.
+Print Assumptions C03_resting_subtract.
+Print Assumptions C03_resting_next_count.
+Print Assumptions C03_resting_every_count.
+Print Assumptions C03_resting_every_recorded_count.
+Print Assumptions C03_resting_checker.
+Print Assumptions C03_move_ballot_equal_split.
+Print Assumptions C03_shared_first_rank_split.
+Print Assumptions C03_initial_pile_weight.
+Print Assumptions C03_first_share_shared.
